@@ -26,6 +26,11 @@ check('canon distinguishes', T._canon('(a * b)') != T._canon('(a * c)') and T._c
 check('canon commutes', T._canon('((a * b) + c)') == T._canon('(c + (b * a))'))
 check('canon square', T._canon('(Flt.powi (a + b) (2 : Int))') == T._canon('((b + a) * (a + b))'))
 check('canon cube is not a square', T._canon('(Flt.powi a (3 : Int))') != T._canon('(a * a)'))
+check('canon half', T._canon('((a + b) / (Flt.lit 0x4000000000000000 2 1))') == T._canon('((Flt.lit 0x3FE0000000000000 1 2) * (b + a))'))
+check('canon third is not half', T._canon('(a / (Flt.lit 0x4008000000000000 3 1))') != T._canon('(a * (Flt.lit 0x3FE0000000000000 1 2))'))
+ref7 = {'m': 'def m {α : Type} [Flt α] (x_1 : α) : α :=\n  (x_1 / (Flt.lit 0x4000000000000000 2 1))'}
+new7 = 'def m {α : Type} [Flt α] (x_1 : α) : α :=\n  (x_1 * (Flt.lit 0x3FE0000000000000 1 2))'
+check('half oriented', T.orient_like_reference(new7, ref7) == ref7['m'])
 # negations
 check('negations', '(Flt.beq k_1 one)' in T._negations('(!(Flt.beq k_1 one))') and '(a == b)' in T._negations('(a != b)'))
 # a scalar constant and its literal
